@@ -78,6 +78,8 @@ Lemma k_upd_obsolete o b : keeps DI (upd_inst o (fun i => i_with_obsolete i b)).
 Proof. upd. Qed.
 Lemma k_upd_vals o v : keeps DI (upd_inst o (fun i => i_with_vals i v)).
 Proof. upd. Qed.
+Lemma k_upd_vals_f o (f : inst -> list (option val)) : keeps DI (upd_inst o (fun i => i_with_vals i (f i))).
+Proof. upd. Qed.
 Lemma k_upd_set_val o c v : keeps DI (upd_inst o (set_val c v)).
 Proof. upd. Qed.
 Lemma k_upd_clean o : keeps DI (upd_inst o (fun i => i_with_pending (i_with_dirty i false) [])).
@@ -85,6 +87,7 @@ Proof. upd. Qed.
 Lemma k_upd_clean_cv o b : keeps DI (upd_inst o (fun i => i_with_cv (i_with_dirty (i_with_pending i []) false) b)).
 Proof. upd. Qed.
 Local Hint Resolve k_upd_expired k_upd_obsolete k_upd_vals k_upd_set_val k_upd_clean k_upd_clean_cv : kp.
+Local Hint Extern 1 (keeps _ (upd_inst _ (fun i => i_with_vals i _))) => apply k_upd_vals_f : kp.
 
 Lemma k_new_blank k id : keeps DI (new_inst (blank_inst k id)).
 Proof. apply keeps_new_inst. reflexivity. Qed.
